@@ -179,7 +179,7 @@ func addLibIntrinsics(m map[string]intrinsicFn) {
 		r := a[1].(iface)
 		total := int64(0)
 		for iter := 0; ; iter++ {
-			if iter > p.eng.cfg.Unwind {
+			if iter > p.cfg.Unwind {
 				p.end(stUnwind, "io.discard.ReadFrom: reader never ends")
 			}
 			buf := make([]value, 64)
